@@ -250,6 +250,9 @@ func (g *hgen) chaosOp() Op {
 		if c.Intn(4) == 0 {
 			op.Variant = 1
 		}
+		if c.Intn(8) == 0 {
+			op.StripSig, op.StripNil = 1+c.Intn(3), c.Intn(2) == 0
+		}
 	case "commit":
 		seen := map[uint32]bool{}
 		for k := c.Intn(len(g.cast) + 1); k > 0; k-- {
@@ -436,6 +439,9 @@ func genHist(c *hx.Ctx, i int) *Hist {
 			bad := []Sig{{Key: sigGarbage}, {Key: sigEmpty}, {Key: sigOneByte}, {Key: g.pos[f]}, {Key: g.pos[p], Hash: 1}}
 			op := g.proposal(p, 0)
 			op.Sig = bad[c.Intn(len(bad))]
+			if c.Intn(3) == 0 {
+				op.Sig, op.StripSig, op.StripNil = Sig{Key: g.pos[p]}, 1+c.Intn(3), c.Intn(2) == 0
+			}
 			h.Ops = append(h.Ops, op)
 		}
 	case 5:
@@ -523,6 +529,27 @@ func unsignedProbes() []Hist {
 		out = append(out, Hist{Label: "probe-unsigned/proposal", N: 7, C: 2, Self: 1,
 			Peers: []uint32{0, 1, 2, 3, 4, 5, 6}, Connected: []uint32{0, 2, 3, 4, 5, 6}, Endorsers: []uint32{1, 2, 3, 4, 5},
 			Ops: []Op{{Kind: "proposal", Sender: 0, Proposer: 0, Sig: sg}}})
+	}
+	return out
+}
+
+// strippedProposalProbes: regression probes for the repaired decoder (repo fix fa5ca75d): a
+// proposal whose block header and/or empty-block header has an empty (or nil) SigData list must be
+// rejected by DeserializeVbftMsg with an error (blockProposalMsg.UnmarshalJSON used to index
+// SigData[0] and panic in the receive goroutine). The pool must be untouched: the well-formed
+// proposal and endorsement that follow are accepted as if nothing had happened.
+func strippedProposalProbes() []Hist {
+	var out []Hist
+	for strip := 1; strip <= 3; strip++ {
+		for _, isNil := range []bool{false, true} {
+			out = append(out, Hist{Label: fmt.Sprintf("probe-proposal-without-sigdata/%d/%v", strip, isNil), N: 4, C: 1, Self: 2,
+				Peers: []uint32{0, 1, 2, 3}, Connected: []uint32{0, 1, 3}, Endorsers: []uint32{1, 2, 3},
+				Ops: []Op{
+					{Kind: "proposal", Sender: 0, Proposer: 0, Sig: Sig{Key: 0}, StripSig: strip, StripNil: isNil},
+					{Kind: "proposal", Sender: 0, Proposer: 0, Sig: Sig{Key: 0}},
+					{Kind: "endorse", Sender: 1, Claimed: 1, Proposer: 0, Sig: Sig{Key: 1}},
+				}})
+		}
 	}
 	return out
 }
